@@ -6,6 +6,7 @@ import XzVerif.Model.Lzma1
 import XzVerif.Model.ReadLoop
 import XzVerif.Model.Gxz
 import XzVerif.Model.GFlag
+import XzVerif.Model.Writer2
 /-
   driver — line protocol around the executable definitions of Spec and Model.
   One request per line on stdin, one reply line on stdout.  Core-only, so it links.
@@ -130,6 +131,24 @@ partial def parseBlocks (toks : List String) (acc : Array Xz.BlockSpec) : Option
     | _, _, _ => none
   | _ => none
 
+def parseGoOp (s : String) : Option W2.GoOp :=
+  let body := (s.drop 1).toString
+  match s.front with
+  | 'L' => body.toNat?.map W2.GoOp.lit
+  | 'M' => match body.splitOn "," with
+    | [a, b] => match a.toNat?, b.toNat? with
+      | some a, some b => some (.mtch a b)
+      | _, _ => none
+    | _ => none
+  | _ => none
+
+def parseCall (s : String) : Option W2.Call :=
+  if s = "F" then some .flush else if s = "C" then some .close
+  else if s.front = 'W' then some (.write (unhex (s.drop 1).toString)) else none
+
+def errName : Option W2.Err → String
+  | none => "ok" | some .closed => "closed" | some .limit => "limit" | some (.other _) => "other"
+
 def handle (line : String) : String :=
   match (line.trimAscii.toString.splitOn " ").filter (· ≠ "") with
   | ["dictsizes"] => " ".intercalate ((List.range 41).map (fun c => toString (Spec.dictSize c)))
@@ -225,6 +244,17 @@ def handle (line : String) : String :=
     | .fail => "fail"
     | .toStdout => "stdout"
     | .toFile t keep => s!"file {hex t.toUTF8} {if keep then 1 else 0}"
+  -- w2run <propsByte> <dictCap> <bufSize> <ops> <call>... → per call n:err@sinkLen | sink | chunks
+  | "w2run" :: pb :: dc :: bs :: ops :: calls =>
+    match pb.toNat?.bind Lzma2.propsOfByte, dc.toNat?, bs.toNat?,
+          ((ops.splitOn ".").filter (fun x => x ≠ "" ∧ x ≠ "-")).mapM parseGoOp, calls.mapM parseCall with
+    | some p, some dc, some bs, some ops, some calls =>
+      let cfg : W2.Cfg := { props := p, dictCap := dc, bufSize := bs }
+      let (w, rs) := W2.run cfg W2.Script (W2.init cfg ops) calls
+      " ".intercalate (rs.map (fun (r, sz) => s!"{r.n}:{errName r.err}@{sz}")) ++ " | " ++ hex w.out ++ " | " ++
+        ",".intercalate (w.chunks.toList.map (fun c => s!"{nameOfKind c.kind}:{c.raw.size}:{c.ops.size}")) ++
+        s!" | left={w.m.length}"
+    | _, _, _, _, _ => "bad-op"
   | ["lzmaops", h] =>
     let r := Lzma1.read 0 (unhex h)
     " ".intercalate (r.ops.toList.map opStr)
